@@ -206,7 +206,8 @@ vars == <<sig0, sig, calls, exp, expl, chg, pre, sites, opt, shown, shownD, show
 inlvars == <<sites, opt, shown, shownD, shownS, shownL, carry, stale, hostval, hostvalC, cache, imported, importedD, todo, defgone>>
 sigvars == <<calls, exp, expl, chg, pre>>
 
-Changer(op, i, perm, auto, d, v) == [op |-> op, i |-> i, perm |-> perm, auto |-> auto, d |-> d, v |-> v]
+\* nm: the name an add introduces / a remove takes away ("" for the other changers)
+Changer(op, i, perm, auto, d, v) == [op |-> op, i |-> i, perm |-> perm, auto |-> auto, d |-> d, v |-> v, nm |-> ""]
 
 \* one changer step: new signature, new expected bindings, re-emitted calls
 Step(c, sig2, newname, newval, inl, exp2, expl2) ==
@@ -260,12 +261,18 @@ AddLegal(name, i, d, v) ==
   /\ WellFormedSig(InsertAt(sig, i, [n |-> name, d |-> d]))
 AddStep(opname, name, i, d, v) ==
   /\ AddLegal(name, i, d, v)
-  /\ Step(Changer(opname, i, <<>>, FALSE, d, v), InsertAt(sig, i, [n |-> name, d |-> d]),
+  /\ Step([Changer(opname, i, <<>>, FALSE, d, v) EXCEPT !.nm = name], InsertAt(sig, i, [n |-> name, d |-> d]),
           name, v, "",
           [c0 \in DOMAIN exp |->
              [exp[c0] EXCEPT !.par = @ \cup {<<name, IF v # NoVal THEN v ELSE d>>}]],
           [c0 \in DOMAIN expl |-> IF v # NoVal THEN expl[c0] \cup {name} ELSE expl[c0]])
 Add(i, d, v) == AddStep("add", NewName, i, d, v)
+\* A later changer of the same request may re-use the name of a parameter an earlier changer removed.
+\* The re-added parameter is a NEW parameter: it gets the value the request supplies, never what the
+\* calls passed to the removed one.  Only requests that supply a value are in the legal set (with a
+\* default alone it is debatable whether "remove + add" means "move", so that is not charged).
+Removed == Names(sig0) \ Names(sig)
+ReAdd(name, i, d) == name \in Removed /\ AddStep("add", name, i, d, AddVal)
 \* introduce-parameter: a new last named parameter whose default is the expression
 Intro == chg = <<>> /\ AddStep("intro", IntroName, Len(sig.ps), IntroDef, NoVal)
 
@@ -273,7 +280,7 @@ Intro == chg = <<>> /\ AddStep("intro", IntroName, Len(sig.ps), IntroDef, NoVal)
 Without(s, i) == [s EXCEPT !.ps = SubSeq(s.ps, 1, i - 1) \o SubSeq(s.ps, i + 1, Len(s.ps))]
 Remove(i) ==
   /\ i \in DOMAIN sig.ps
-  /\ Step(Changer("remove", i, <<>>, FALSE, 0, 0), Without(sig, i), "", NoVal, "",
+  /\ Step([Changer("remove", i, <<>>, FALSE, 0, 0) EXCEPT !.nm = sig.ps[i].n], Without(sig, i), "", NoVal, "",
           [c0 \in DOMAIN exp |->
              [exp[c0] EXCEPT !.par = { e \in @ : e[1] # sig.ps[i].n }]],
           [c0 \in DOMAIN expl |-> expl[c0] \ {sig.ps[i].n}])
@@ -298,6 +305,7 @@ SigNext ==
   \/ \E perm \in Perms(Len(sig.ps)), auto \in BOOLEAN : Reorder(perm, auto)
   \/ \E i \in 0..Len(sig.ps), d \in {NoVal, AddDef}, v \in {NoVal, AddVal} : Add(i, d, v)
   \/ \E i \in 1..(MaxParams + 1) : Remove(i)
+  \/ \E name \in Names(sig0), i \in 0..Len(sig.ps), d \in {NoVal, AddDef} : ReAdd(name, i, d)
   \/ RemoveVa
   \/ RemoveKw
   \/ \E i \in 1..(MaxParams + 1) : InlineDefault(i)
@@ -467,11 +475,20 @@ BindPreserved == Task = "sig" => \A c0 \in DOMAIN calls : Binding(sig, calls[c0]
 ExplicitPassed == Task = "sig" => \A c0 \in DOMAIN calls : expl[c0] \subseteq Supplied(sig, calls[c0])
 \* the property in terms of the original program: every surviving original
 \* parameter keeps the value the original call gave it; *args / **kw too
+\* names (re-)introduced by an add of this request: those are new parameters, not survivors
+AddedNames == { chg[j].nm : j \in { j \in DOMAIN chg : chg[j].op \in {"add", "intro"} } }
+\* a (re-)added parameter with a supplied value is bound to that value at every site
+AddedGetSupplied ==
+  Task = "sig" =>
+    \A j \in DOMAIN chg :
+      (chg[j].op = "add" /\ chg[j].v # NoVal /\ chg[j].nm \in Names(sig)
+         /\ \A k \in DOMAIN chg : (k > j) => chg[k].nm # chg[j].nm) =>
+        \A c0 \in DOMAIN calls : <<chg[j].nm, chg[j].v>> \in Binding(sig, calls[c0]).par
 SurvivorsKeep ==
   Task = "sig" =>
     \A c0 \in DOMAIN calls :
       LET b0 == Binding(sig0, c0) b1 == Binding(sig, calls[c0]) IN
-      /\ \A e \in b0.par : (e[1] \in Declared(sig)) => e \in b1.par
+      /\ \A e \in b0.par : (e[1] \in Declared(sig) /\ e[1] \notin AddedNames) => e \in b1.par
       /\ sig.va => b1.va = b0.va
       /\ sig.kw => b1.kw = b0.kw
       /\ b1.rc = b0.rc                 \* the implicit first parameter is still the same object
